@@ -1,6 +1,9 @@
 package engine
 
-import "bytes"
+import (
+	"bytes"
+	"strings"
+)
 
 // Stored-byte corruption between runs (fault kinds B1..B5).
 func corruptFile(w *World, op *Op) {
@@ -69,15 +72,29 @@ func corruptFile(w *World, op *Op) {
 		pf := splitPEM(out)
 		if len(pf.Blocks) > 0 {
 			b := pf.Blocks[r.Intn(len(pf.Blocks))]
-			hdr := "-----BEGIN " + b.Type + "-----\nProc-Type: 4,ENCRYPTED\nDEK-Info: AES-128-CBC,00\n\n"
+			// RFC 1421 headers as OpenSSL's traditional formats carry them - complete, cut short, empty,
+			// repeated, or others entirely
+			hdr := "-----BEGIN " + b.Type + "-----\n" + Pick(r, []string{"Proc-Type: 4,ENCRYPTED\nDEK-Info: AES-128-CBC,00\n", "Proc-Type: 4\n", "Proc-Type:\n", "Proc-Type: ,\n",
+				"Proc-Type: 4,MIC-ONLY\nContent-Domain: RFC822\n", "DEK-Info: AES-128-CBC\n", "DEK-Info:\n", "Comment: exported by hand\n", "Proc-Type: 4,ENCRYPTED\nProc-Type: 4\n", "X: " + strings.Repeat("y", 900) + "\n"}) + "\n"
 			body := pemEncode(b.Type, b.Bytes)
 			body = body[bytes.IndexByte(body, '\n')+1:]
 			out = append(append(append([]byte(nil), out[:b.Start]...), append([]byte(hdr), body...)...), out[b.End:]...)
 		}
-	case "weird-key":
-		// structurally valid PKCS#8 with a degenerate key in place of the stored one
+	case "weird-key", "unparsable-key":
+		// structurally valid PKCS#8 with a degenerate key in place of the stored one; "unparsable-key"
+		// keeps to the kinds gopki refuses at import (unknown curve, scalar >= group order, no curve,
+		// other inner version), so that the artifact simply has no usable key any more
 		var der []byte
-		switch r.Intn(5) {
+		kind := r.Intn(7)
+		if op.Arg == "unparsable-key" {
+			kind = Pick(r, []int{1, 2, 5, 6})
+		}
+		switch kind {
+		case 5: // EC key on a curve gopki does not know (secp256k1), as openssl pkcs8 -topk8 writes it
+			sc := append([]byte{1}, r.Bytes(31)...)
+			der = derSeq(derSmallInt(0), derSeq(derOIDBytes(oidECPub), derOIDBytes("1.3.132.0.10")), derOctets(derSeq(derSmallInt(1), derOctets(sc), derTLV(0xa0, derOIDBytes("1.3.132.0.10")))))
+		case 6: // inner structure of another version
+			der = derSeq(derSmallInt(0), derSeq(derOIDBytes(oidECPub), derOIDBytes(curveOIDByName["P-256"])), derOctets(derSeq(derSmallInt(9), derOctets(append([]byte{1}, r.Bytes(31)...)))))
 		case 0: // EC scalar zero
 			der = derSeq(derSmallInt(0), derSeq(derOIDBytes(oidECPub), derOIDBytes(curveOIDByName["P-256"])), derOctets(derSeq(derSmallInt(1), derOctets(make([]byte, 32)))))
 		case 1: // EC scalar >= group order
